@@ -36,6 +36,10 @@ fn main() {
     let seed: u64 = args[3].parse().expect("seed");
     common::install_panic_hook();
     let mut ctx = Ctx::new(seed, thorough);
+    // in replay mode each finished line is written at once, so that after an abort the file tells
+    // which case was running
+    let mut stream = if args[2] == "replay" { Some(std::fs::File::create(&args[4]).expect("outfile")) } else { None };
+    let mut written = 0usize;
     if let Some(corpus) = args.get(5) {
         // replay stored op lines first (only op + args are used; answers are recomputed)
         if let Ok(text) = std::fs::read_to_string(corpus) {
@@ -49,6 +53,13 @@ fn main() {
                 if !dispatch_replay(&mut ctx, &fields[..cut]) {
                     eprintln!("corpus line not understood: {line}");
                     std::process::exit(2);
+                }
+                if let Some(f) = stream.as_mut() {
+                    for l in &ctx.lines[written..] {
+                        writeln!(f, "{l}").unwrap();
+                    }
+                    f.flush().unwrap();
+                    written = ctx.lines.len();
                 }
             }
         }
@@ -82,6 +93,7 @@ fn main() {
             }
         }
     }
+    drop(stream);
     let mut f = std::io::BufWriter::new(std::fs::File::create(&args[4]).expect("outfile"));
     for l in &ctx.lines {
         writeln!(f, "{l}").unwrap();
